@@ -8,6 +8,7 @@ ops
 * `max_euler_step_cb`  {"keys": [name…], "comps": [[[key, rat]…]…], "rxns": [rxn…], "states": [[rat…]…]}
       → `None` when the system gets no callback (`check_balance(strict=True)` false), otherwise per state
         `h;[f…];[ub…]` (bounds `inf` for an unbounded substance), states separated by `|`; an exception is printed by name
+* `max_euler_step_cb_cstr` as above plus "fr": rat, "fc": [rat…] (stirred tank, `get_odesys(rsys, cstr=True)`)
 * `upper_conc_bounds`  {"comps": …, "init": [rat…]} → `[b…]` / exception name
 * `first_order_matrix` {"keys": …, "rxns": …} → matrix of rationals, `NotFirstOrder` when some reaction is not `{j: 1} → …`
 * `euler_step`         {"y": [rat…], "ub": [rat | null…], "f": [rat…]} → `h` / exception name   (the bare arithmetic)
@@ -47,8 +48,36 @@ def oneState (keys : List String) (comps : List (EqSolve.Comp Rat)) (rs : List (
       | .error e => e.name
     s!"{showRat h};{f};{ub}"
 
+def oneStateCstr (keys : List String) (comps : List (EqSolve.Comp Rat)) (rs : List (Reaction String Rat)) (cs : Cstr String)
+    (p : List (String × Rat)) (y : List Rat) : String :=
+  match maxEulerStepCbCstr keys comps rs cs p y with
+  | .error e => e.name
+  | .ok h =>
+    let f := match fvecCstr keys rs cs p y with
+      | .ok f => showRatList f
+      | .error e => e.name
+    let ub := match EqSolve.upperConcBounds comps y with
+      | .ok ub => showBounds ub
+      | .error e => e.name
+    s!"{showRat h};{f};{ub}"
+
 def h : Handler := fun op j =>
   match op with
+  | "max_euler_step_cb_cstr" => do
+      -- get_odesys(rsys, cstr=True): "fr" = feed ratio, "fc" = feed concentration per substance (order of "keys");
+      -- the parameter names are those chempy generates: 'feedratio', 'fc_<substance>'
+      let keys ← getStrList j "keys"
+      let comps ← getComps j "comps"
+      let rs ← getRxns j "rxns"
+      let states ← (← getArr j "states").mapM fun v => do (← asArr v).mapM asRat
+      let fr ← getRat j "fr"
+      let fc ← getRatList j "fc"
+      if keys.length != comps.length || fc.length != keys.length then .error "!bad-arg:comps" else
+      if (dedupKeys keys).length != keys.length then .error "!bad-arg:keys:duplicate" else
+      if !(callbackAvailable keys comps rs) then pure "None" else
+      let cs : Cstr String := ⟨"feedratio", keys.map fun k => (k, "fc_" ++ k)⟩
+      let p : List (String × Rat) := ("feedratio", fr) :: List.zip (keys.map fun k => "fc_" ++ k) fc
+      pure ("|".intercalate (states.map (oneStateCstr keys comps rs cs p)))
   | "max_euler_step_cb" => do
       let keys ← getStrList j "keys"
       let comps ← getComps j "comps"
